@@ -135,8 +135,8 @@ package tor
 //@   ensures  [single]   t.Files == nil ==> len($r0) == 1 && $r0[0].offset == int64(index)*int64(t.Pieces.PieceSize()) + int64(offset) && $r0[0].length == int64(length) && $r0[0].filelength == t.Pieces.Length()
 //@   ensures  [inside]   t.Files != nil ==> forall k int :: 0 <= k && k < len($r0) ==> 0 <= $r0[k].offset && 0 <= $r0[k].length && (length > 0 ==> 0 < $r0[k].length) && $r0[k].offset + $r0[k].length <= $r0[k].filelength
 //@   ensures  [cont]     t.Files != nil ==> forall k int :: 0 < k && k < len($r0) ==> $r0[k].offset == 0
-//@   ensures  [conserve] t.Files != nil ==> o + l == int64(index)*int64(t.Pieces.PieceSize()) + int64(offset) + int64(length)
-//@   ensures  [covered]  t.Files != nil ==> l == 0 || length == 0
+//@   exit     [conserve] t.Files != nil ==> o + l == int64(index)*int64(t.Pieces.PieceSize()) + int64(offset) + int64(length)
+//@   exit     [covered]  t.Files != nil ==> l == 0 || length == 0
 //@   loop 1
 //@     invariant [cons]   o + l == int64(index)*int64(t.Pieces.PieceSize()) + int64(offset) + int64(length) && l >= 0 && o >= 0 && (fcs == nil || fresh_(fcs))
 //@     invariant [pos]    $i < len(t.Files) ==> t.Files[$i].Offset <= o
@@ -145,4 +145,76 @@ package tor
 //@     invariant [inside] forall k int :: 0 <= k && k < len(fcs) ==> 0 <= fcs[k].offset && 0 <= fcs[k].length && (length > 0 ==> 0 < fcs[k].length) && fcs[k].offset + fcs[k].length <= fcs[k].filelength
 //@     invariant [cont]   forall k int :: 0 < k && k < len(fcs) ==> fcs[k].offset == 0
 //@     invariant [more]   length > 0 ==> l > 0
+//@   props    C14
+
+// writer: the block-aligning sink web-seed bodies are copied into. It is
+// confined to [offset0, offset0+count0) of one piece: offset+count (the end
+// of the range) never changes, what is handed to the piece store never
+// exceeds count, and offset+len(buf) advances by exactly the bytes accepted
+// (so stream position s always lands at offset0+s).
+//@ spec WGeo(w *writer) bool
+//@   import "github.com/jech/storrent/tor/piece"
+//@   body w.t != nil ==> (piece.GeomP(&w.t.Pieces) && int(w.index) < w.t.Pieces.Num() && int(w.offset) + int(w.count) <= 1<<30)
+//@ spec WOK(w *writer) bool
+//@   body WGeo(w) && (w.t != nil ==> len(w.buf) <= int(w.count))
+
+//@ func (*writer).writeEvent
+//@   trusted
+//@   requires w != nil
+
+//@ func (*writer).write
+//@   requires w != nil && w.t != nil && WGeo(w) && len(data) <= int(w.count)
+//@   modifies w.count, w.offset, heap:github.com/jech/storrent/tor/piece.Pieces.count, heap:E:github.com/jech/storrent/tor/piece.Piece.data, heap:E:github.com/jech/storrent/tor/piece.Piece.bitmap, heap:E:github.com/jech/storrent/tor/piece.Piece.peers, heap:A:uint8, heap:A:uint32, heap:global:github.com/jech/storrent/alloc.allocated
+//@   ensures  [n]    0 <= $r0 && $r0 <= len(data)
+//@   ensures  [adv]  int(w.offset) == old(int(w.offset)) + $r0 && int(w.count) == old(int(w.count)) - $r0
+//@   ensures  [geo]  WGeo(w)
+//@   props    C14
+
+//@ func (*writer).Write
+//@   requires w != nil && WOK(w) && (w.buf == nil || p == nil || ref_(w.buf) != ref_(p))
+//@   modifies w.count, w.offset, w.buf, heap:github.com/jech/storrent/tor/piece.Pieces.count, heap:E:github.com/jech/storrent/tor/piece.Piece.data, heap:E:github.com/jech/storrent/tor/piece.Piece.bitmap, heap:E:github.com/jech/storrent/tor/piece.Piece.peers, heap:A:uint8, heap:A:uint32, heap:global:github.com/jech/storrent/alloc.allocated
+//@   ensures  [closed] old(w.t) == nil ==> $r0 == 0 && $r1 != nil
+//@   ensures  [n]      0 <= $r0 && $r0 <= len(p)
+//@   ensures  [ok]     WOK(w)
+//@   ensures  [end]    old(w.t) != nil ==> int(w.offset) + int(w.count) == old(int(w.offset) + int(w.count))
+//@   ensures  [pos]    old(w.t) != nil ==> int(w.offset) + len(w.buf) == old(int(w.offset) + len(w.buf)) + $r0
+//@   ensures  [short]  $r0 < len(p) ==> $r1 != nil
+//@   deadcode 2
+//@   props    C14
+
+//@ func (*writer).ReadFrom
+//@   requires w != nil && r != nil && WOK(w)
+//@   modifies w.count, w.offset, w.buf, heap:github.com/jech/storrent/tor/piece.Pieces.count, heap:E:github.com/jech/storrent/tor/piece.Piece.data, heap:E:github.com/jech/storrent/tor/piece.Piece.bitmap, heap:E:github.com/jech/storrent/tor/piece.Piece.peers, heap:A:uint8, heap:A:uint32, heap:global:github.com/jech/storrent/alloc.allocated
+//@   ensures  [closed] old(w.t) == nil ==> $r0 == 0 && $r1 != nil
+//@   ensures  [ok]     WOK(w)
+//@   ensures  [end]    old(w.t) != nil ==> int(w.offset) + int(w.count) == old(int(w.offset) + int(w.count))
+//@   ensures  [pos]    old(w.t) != nil ==> int64(w.offset) + int64(len(w.buf)) == old(int64(w.offset) + int64(len(w.buf))) + $r0
+//@   loop 1
+//@     invariant [ok]  w.t != nil && w.t == old(w.t) && WGeo(w) && cap(w.buf) >= 32768 && len(w.buf) <= int(w.count) && count >= 0
+//@     invariant [end] int(w.offset) + int(w.count) == old(int(w.offset) + int(w.count))
+//@     invariant [pos] int64(w.offset) + int64(len(w.buf)) == old(int64(w.offset) + int64(len(w.buf))) + count
+//@   deadcode 2
+//@   props    C14
+
+// Close: whatever is left of the range is given up (count drops to 0 after
+// the TorDrop for exactly [offset, offset+count)), and the writer is dead:
+// later writes fail.
+//@ func (*writer).Close
+//@   requires w != nil
+//@   modifies w.count, w.t
+//@   ensures  [closed]   w.t == nil
+//@   ensures  [once]     old(w.t) == nil ==> $r0 != nil && w.count == old(w.count)
+//@   ensures  [released] old(w.t) != nil ==> w.count == 0 && $r0 == nil
+//@   props    C14
+
+// webseedGR: every chunk computed by fileChunks is requested with a range
+// that lies inside its file (Get's precondition), into one writer confined
+// to the range of the fetch; the writer is closed on every path.
+//@ func webseedGR
+//@   requires ctx != nil && ws != nil && t != nil && t.Log != nil && GeomSizes(t) && FilesEach(t) && FilesChain(t) && FilesEnds(t) && FilesBound(t)
+//@   requires int64(index)*int64(t.Pieces.PieceSize()) + int64(offset) + int64(length) <= t.Pieces.Length()
+//@   modifies *
+//@   loop 1
+//@     invariant [inside] forall k int :: 0 <= k && k < len(fcs) ==> 0 <= fcs[k].offset && 0 <= fcs[k].length && fcs[k].offset + fcs[k].length <= fcs[k].filelength
+//@     invariant [w] writer != nil
 //@   props    C14
